@@ -62,7 +62,7 @@ def prog_id(prog: dict) -> str:
 
 def stmt_inputs(st_: dict) -> List[str]:
     op = st_["op"]
-    if op in ("linear", "ulinear", "ew", "shape", "matmul", "conv1d", "intop", "detach"):
+    if op in ("linear", "ulinear", "ew", "shape", "matmul", "conv1d", "intop", "detach", "argmax"):
         return [st_["x"]]
     if op == "sdpa":
         return [st_["q"], st_["k"], st_["v"]]
@@ -191,6 +191,8 @@ def _expr(s: dict, prog: dict) -> List[str]:
             return [f"{o} = F.linear({x}, self.w{i}, bias={b})"]
         if sp == "allkw":
             return [f"{o} = F.linear(input={x}, weight=self.w{i}, bias={b})"]
+        if sp == "kwweight":
+            return [f"{o} = F.linear({x}, weight=self.w{i}.view({h}, {h}))"]
         raise KeyError(sp)
     if op == "ulinear":
         b = f"self.b{i}" if s["bias"] else "None"
@@ -278,6 +280,8 @@ def _expr(s: dict, prog: dict) -> List[str]:
         raise KeyError(s["kind"])
     if op == "detach":
         return [f"{o} = {s['x']}.detach() + 0.0 * {s['x']}" if s.get("keep_grad") else f"{o} = {s['x']}.detach()"]
+    if op == "argmax":
+        return [f"{o} = {s['x']}.argmax(-1)"]
     raise KeyError(op)
 
 
@@ -590,6 +594,8 @@ def evaluate(prog: dict, P: Dict[str, torch.Tensor], inputs: Dict[str, torch.Ten
         if op == "linear":
             if s["spell"] == "module":
                 w, b = P[f"lin{i}.weight"], P.get(f"lin{i}.bias")
+            elif s["spell"] == "kwweight":
+                w, b = P[f"w{i}"].view(h, h), None
             else:
                 w, b = P[f"w{i}"], (P[f"b{i}"] if s["bias"] else None)
             v = mode.linear(s, env[s["x"]], w, b)
@@ -637,6 +643,8 @@ def evaluate(prog: dict, P: Dict[str, torch.Tensor], inputs: Dict[str, torch.Ten
         elif op == "detach":
             x = env[s["x"]]
             v = x.detach() + 0.0 * x if s.get("keep_grad") else x.detach()
+        elif op == "argmax":
+            v = env[s["x"]].argmax(-1)
         else:
             raise KeyError(op)
         if record is not None:
@@ -690,7 +698,7 @@ class _Builder:
         k = d(st.sampled_from(kinds))
         if k == "linear":
             sp = d(st.sampled_from(self.allow["linear_spells"]))
-            bias = False if sp == "nobias" else d(st.booleans())
+            bias = False if sp in ("nobias", "kwweight") else d(st.booleans())
             return self.emit(op="linear", x=x, i=self.idx(), bias=bias, spell=sp)
         if k == "ulinear":
             return self.emit(op="ulinear", x=x, i=self.idx(), bias=d(st.booleans()), readout=d(st.integers(0, 3)) == 0,
@@ -770,8 +778,8 @@ class _Builder:
             if spell == "iadd":
                 spell = "plus"
             self.uses_x2 = True
-        if spell == "iadd" and a == x:
-            spell = "plus"
+        if spell == "iadd" and not (self.stmts and any(s_["out"] == a and s_["op"] == "linear" for s_ in self.stmts)):
+            spell = "plus"  # in-place only on a fresh linear output (no backward formula needs it)
         return self.emit(op="add", a=a, b=b, spell=spell)
 
 
@@ -868,3 +876,60 @@ def stats(prog: dict) -> Dict[str, int]:
     ops = [s["op"] for s in prog["stmts"]]
     return dict(n_ops=len(ops), n_residual=len(plan["residual"]), n_add=sum(o == "add" for o in ops),
                 n_linear=sum(o in ("linear", "ulinear") for o in ops), n_sdpa=sum(o == "sdpa" for o in ops))
+
+
+ALLOW_TRACK = dict(
+    linear_spells=["pos", "nobias", "kwbias", "module", "kwweight"],
+    mask_spells=["kw", "pos"],
+    ew=["tanh", "relu", "mulc", "neg", "gelu", "silu", "softmax", "layer_norm", "layer_norm_mod", "sin", "dropout0"],
+    shape=["flat", "transpose2", "slice_cat", "rotate_half", "stack_sum", "mul1", "index", "view"],
+    add_spells=["plus", "torch.add"],
+    plain_add=["fork", "fork", "param", "x2"],
+    extra=[],
+)
+KINDS_TRACK = ["linear", "ew", "ew", "shape", "shape", "shape", "sdpa", "matmul", "intop", "scalar_add"]
+
+
+@st.composite
+def track_programs(draw, max_ops=14):
+    """C18 / C19 programs: as the unit programs plus fan-out, integer / bool intermediates, list / tuple consumers
+    (cat, stack, rotate-half), keyword tensor arguments, index tensors, views / negations / *1.0, multiple outputs"""
+    h = draw(st.sampled_from([2, 4, 6]))
+    B, S, V = draw(st.integers(1, 3)), draw(st.integers(2, 5)), draw(st.integers(3, 9))
+    b = _Builder(draw, h, ALLOW_TRACK)
+    b.uses_x2 = False
+    start = draw(st.sampled_from(["x", "x", "x", "embedding"]))
+    inputs = ["x"]
+    cur = "x"
+    if start == "embedding":
+        inputs = ["ids"]
+        cur = b.emit(op="embedding", i=b.idx(), spell=draw(st.sampled_from(["fun", "module"])), ids="ids")
+    floats = [cur]
+    n = draw(st.integers(1, max_ops))
+    for _ in range(n):
+        if len(b.stmts) >= max_ops:
+            break
+        step = draw(st.sampled_from(["op", "op", "op", "res", "plain_add"]))
+        if step == "op":
+            cur = b.unary(cur, KINDS_TRACK)
+        elif step == "res":
+            cur = b.residual(cur, KINDS_TRACK, 0)
+        else:
+            cur = b.plain_add(cur, KINDS_TRACK)
+        floats.append(cur)
+    if b.uses_x2:
+        inputs = inputs + ["x2"]
+    kind = draw(st.sampled_from(["dot", "tuple", "tuple", "mse"]))
+    if kind == "tuple":
+        vars_ = [cur]
+        if draw(st.booleans()):
+            vars_.append(b.emit(op="argmax", x=cur))
+        if draw(st.booleans()):
+            vars_.append(b.emit(op="detach", x=draw(st.sampled_from(floats)), keep_grad=draw(st.booleans())))
+        earlier = [v for v in floats[:-1] if v not in inputs]  # (Dynamo passes returned *inputs* through outside the graph)
+        if draw(st.booleans()) and earlier:
+            vars_.append(draw(st.sampled_from(earlier)))
+        ret = dict(kind="tuple", vars=vars_)
+    else:
+        ret = dict(kind=kind, var=cur)
+    return dict(h=h, B=B, S=S, V=V, inputs=inputs, stmts=b.stmts, ret=ret, zeros_in_input=draw(st.booleans()))
